@@ -577,8 +577,19 @@ func (r *RowCache) uuidsByConditionsAsIndexes(conditions []ovsdb.Condition, nati
 		if err != nil {
 			return nil, err
 		}
-		for _, conditions := range conditions {
-			err := info.SetField(conditions.column, conditions.nativeValue)
+		values := map[string]interface{}{}
+		for _, condition := range conditions {
+			nativeValue := condition.nativeValue
+			if previous, ok := values[condition.column]; ok {
+				// several conditions on the same column can only be looked
+				// up together if they are maps addressing different keys
+				nativeValue, ok = mergeConditionValues(previous, nativeValue)
+				if !ok {
+					return nil, nil
+				}
+			}
+			values[condition.column] = nativeValue
+			err := info.SetField(condition.column, nativeValue)
 			if err != nil {
 				return nil, err
 			}
@@ -1221,6 +1232,28 @@ func (t *TableCache) ApplyCacheUpdate(update cacheUpdate) error {
 		}
 	}
 	return nil
+}
+
+// mergeConditionValues combines the values of two conditions on the same
+// column into a single value. Maps are merged unless they disagree on a key;
+// any other values can only be combined if they are equal.
+func mergeConditionValues(a, b interface{}) (interface{}, bool) {
+	av := reflect.ValueOf(a)
+	bv := reflect.ValueOf(b)
+	if av.Kind() != reflect.Map || bv.Kind() != reflect.Map || av.Type() != bv.Type() {
+		return b, reflect.DeepEqual(a, b)
+	}
+	merged := reflect.MakeMapWithSize(av.Type(), av.Len()+bv.Len())
+	for iter := av.MapRange(); iter.Next(); {
+		merged.SetMapIndex(iter.Key(), iter.Value())
+	}
+	for iter := bv.MapRange(); iter.Next(); {
+		if existing := merged.MapIndex(iter.Key()); existing.IsValid() && !reflect.DeepEqual(existing.Interface(), iter.Value().Interface()) {
+			return nil, false
+		}
+		merged.SetMapIndex(iter.Key(), iter.Value())
+	}
+	return merged.Interface(), true
 }
 
 func valueFromIndex(info *mapper.Info, columnKeys []model.ColumnKey) (interface{}, error) {
